@@ -37,8 +37,36 @@ pub fn replay(case: &Value) -> Vec<Obs> {
     obs
 }
 
+/// the program with every atom argument renamed: same predicates, other answers
+fn decoy_prog(prog: &Value) -> Value {
+    fn ren(v: &Value) -> Value {
+        match v {
+            Value::Object(m) => {
+                if m.get("k").and_then(|k| k.as_str()) == Some("atom") { return serde_json::json!({"k": "atom", "s": format!("decoy_{}", m["s"].as_str().unwrap_or(""))}); }
+                Value::Object(m.iter().map(|(k, x)| (k.clone(), ren(x))).collect())
+            }
+            Value::Array(a) => Value::Array(a.iter().map(ren).collect()),
+            o => o.clone(),
+        }
+    }
+    ren(prog)
+}
+
 fn replay_with(case: &Value, ctor: &str) -> Vec<Obs> {
-    let kb = build_kb(&case["prog"]);
+    // an EARLIER knowledge base in the same process (and in the same variable): same predicate names, other facts;
+    // every query of the plan is first run against it -- the history proper must not be affected
+    let mut kb = build_kb(&decoy_prog(&case["prog"]));
+    for ep in case["plan"].as_array().unwrap() {
+        let qt = tm_from_json(&ep["query"]);
+        if let Unifiable::SComplex(v) = build(&qt) {
+            start_query();
+            let q = make_query(v);
+            let sn = make_base_node(Rc::new(q), &kb);
+            let _ = catch_unwind(AssertUnwindSafe(|| solve_all(sn)));
+            capture::take();
+        }
+    }
+    kb = build_kb(&case["prog"]);
     let plan = case["plan"].as_array().unwrap();
     let reports = case["reports"].as_array().unwrap();
     let mut obs = vec![];
@@ -97,6 +125,9 @@ fn replay_with(case: &Value, ctor: &str) -> Vec<Obs> {
                                      else { wkind == "ans" && s == answer_text(&qt, &wans) };
                             // C23: solve reports the query's next answer, `No more.` or the timeout message -- nothing else
                             if constrained && !ok { c23_ok = false; }
+                            // ... and never a timeout when its own timer did not fire -- also on a query one of whose
+                            // earlier calls timed out (the answers of such a call are not constrained, this is)
+                            if fire == 0 && s.starts_with(TIMEOUT_PREFIX) { c23_ok = false; if first_bad.is_empty() { first_bad = format!("episode {} call `solve` reported a timeout although its timer did not fire", ei + 1); } }
                             (ok, format!("{:?}", s))
                         }
                         Err(_) => (false, "PANIC".into()),
@@ -117,6 +148,7 @@ fn replay_with(case: &Value, ctor: &str) -> Vec<Obs> {
                             // C23: solve_all reports a prefix of the answer sequence (complete unless timed out), and the
                             // timeout message exactly when the query's own timer fired
                             if constrained && !ok { c23_ok = false; }
+                            if fire == 0 && timed_out { c23_ok = false; if first_bad.is_empty() { first_bad = format!("episode {} call `solve_all` reported a timeout although its timer did not fire", ei + 1); } }
                             (ok, shown)
                         }
                         Err(_) => (false, "PANIC".into()),
